@@ -20,7 +20,7 @@ func (e *Engine) VerifyLemma(name string) {
 	defer func() {
 		if r := recover(); r != nil {
 			if ce, ok := r.(cevalErr); ok {
-				e.failObligation(oname, "lemma", "", "lemma is well-formed", ce.msg)
+				e.failObligation(oname, "contract", "", "lemma is well-formed", ce.msg) // a name the lemma mentions is gone: drift, not a refutation
 				return
 			}
 			panic(r)
